@@ -5,8 +5,8 @@ META = {
     "explanation": "Abstract interpretation of the version generator over the difference domain (VI4), seeding from MAX(timestamp) (VI5), "
                    "the fresh-directory enforcement point for versioned ops (RT6/RT5), one directory-name helper at every producer/consumer "
                    "(NAME1), restore never writes into an existing directory (RS2), one lowering ⇒ one new version per task (W1), and the "
-                   "destructive-call inventory (DEL1); nothing is written into the version directory after the version was committed (RT2: both log handlers are finished before the verdict, nothing follows the commit).",
-    "rules": ["VI4", "VI5", "RT6", "RT5", "NAME1", "RS2", "W1(planner)", "DEL1", "RT2"],
+                   "destructive-call inventory (DEL1); nothing is written into the version directory after the version was committed (RT2: both log handlers are finished before the verdict, nothing follows the commit). cond gc removes only unrecorded directories, identified from the directory's own location (GC1–GC4).",
+    "rules": ["VI4", "VI5", "RT6", "RT5", "NAME1", "RS2", "W1(planner)", "DEL1", "RT2", "GC1", "GC2", "GC3", "GC4"],
     "assumptions": ["two cond processes running concurrently in one project are outside the quantifier", "time.time() may return any integer sequence"],
     "trusted": ["ast parser", "SQL subset reader"],
 }
@@ -24,3 +24,5 @@ def run(A, rep, tier):
     fs.rule_del1(A, rep)
     # nothing is written into the version directory once the version is recorded (logs are complete before the commit)
     R.rule_rt2(A, rep)
+    # cond gc deletes only directories that are not recorded (identifier rebuilt from the directory's own location)
+    fs.rule_gc(A, rep)
